@@ -2106,14 +2106,14 @@ def _streams(ctx: Ctx, with_model: bool) -> None:
         m = enrich(mm.hierarchy_to_mm(h), k)
         if add_base("enumerated", m):
             entries = catalogue(m, T, det, n_reserved=1)
-            add_mutants("enumerated", m, rotate_rules(entries, 10 if thorough else 2, det))
+            add_mutants("enumerated", m, rotate_rules(entries, 8 if thorough else 2, det))
         if len(B.items) > 400:
             B.run()
     B.run()
 
     # ---- 3. seeded random models
     ft = c06_features()
-    n_random = ctx.n(60, 720)
+    n_random = ctx.n(60, 540)
     for k in range(n_random):
         size = ctx.rng.randint(2, 7)
         m = mm.random_mm(ctx.rng, size, ft)
